@@ -78,8 +78,16 @@ pub fn bmap_range_peekable<T: Copy>(m: &BTreeMap<usize, T>, a: usize, b: usize) 
 impl ReaderF {
     // reader.prefixed(HEADER_OFFSET).as_ptr(): pointer to element 0 of the stored data
     #[verifier::external_body] pub fn data_ptr(&self) -> PtrF { unimplemented!() }
+    // N11: `unsafe { slice::from_raw_parts(reader.prefixed(HEADER_OFFSET).as_ptr().add(from * SIZE_OF_T) as *const T, n) }` (native layout:
+    // the stored bytes are the values): elements from..from+n of the stored data, all of which must exist in the file (C20)
+    #[verifier::external_body] pub fn native_slice<T>(&self, from: usize, n: usize, Tracked(w): Tracked<&mut FW<T>>) -> (r: &[T])
+        requires from + n <= old(w).disk.len()
+        ensures *final(w) == *old(w), r@ == old(w).disk.subrange(from as int, from + n)
+    { unimplemented!() }
 }
 pub trait RawStrategy<T>: Sized {
+    // S::IS_NATIVE_LAYOUT
+    fn is_native_layout() -> bool;
     // N11: `unsafe { S::read_from_ptr(data_ptr, byte_off) }`: C20: element byte_off / size of the stored data, which must exist in the file
     fn read_from_ptr(ptr: PtrF, byte_off: usize, Tracked(w): Tracked<&mut FW<T>>) -> (r: T)
         requires byte_off as int % (sz::<T>() as int) == 0, byte_off as int / (sz::<T>() as int) < old(w).disk.len()
@@ -101,3 +109,16 @@ pub proof fn lemma_flat_push<T>(v: Seq<Option<T>>, x: Option<T>)
 {
     assert(v.push(x).drop_last() =~= v);
 }
+
+// ---- the read dispatch layer (fold_range_at & co): sources and the push buffer ----
+pub const MMAP_CROSSOVER_BYTES: usize = 1024 * 1024 * 1024;
+// `pushed.as_ptr()` / `unsafe { ptr.add(i).read() }`: element i of the slice the pointer was taken from; it must exist (memory safety)
+pub struct PtrS<T> { pub ghost s: Seq<T> }
+#[verifier::external_body] pub fn slice_as_ptr<T>(s: &[T]) -> (r: PtrS<T>) ensures r.s == s@ { unimplemented!() }
+impl<T: Copy> PtrS<T> {
+    #[verifier::external_body] pub fn read_at(&self, i: usize) -> (r: T) requires i < self.s.len() ensures r == self.s[i as int] { unimplemented!() }
+}
+// `&pushed[a..b]`: std panics unless a <= b <= len
+#[verifier::external_body] pub fn slice_sub<T>(s: &[T], a: usize, b: usize) -> (r: &[T]) requires a <= b, b <= s@.len() ensures r@ == s@.subrange(a as int, b as int) { unimplemented!() }
+// N19: Vec::extend_from_slice on Copy values appends the slice's elements themselves
+#[verifier::external_body] pub fn vec_extend_copy<T: Copy>(v: &mut Vec<T>, s: &[T]) ensures final(v)@ == old(v)@ + s@ { v.extend_from_slice(s) }
